@@ -22,6 +22,11 @@ use std::borrow::Cow;
 #[derive(Encode, Decode, CborLen, Debug, PartialEq)] struct OptF { #[n(0)] a: Option<f64>, #[n(1)] b: Option<f32> }
 #[derive(Encode, Decode, CborLen, Debug, PartialEq)] struct CowA<'a> { #[cbor(n(0), with = "minicbor::bytes")] a: Cow<'a, [u8]>, #[n(1)] z: u8 }
 
+/// fields of a type with exactly one value (`()`, `PhantomData<_>`): mandatory fields like any other, written as the empty array
+#[derive(Encode, Decode, CborLen, Debug, PartialEq)] struct UnitA<T> { #[n(0)] id: u8, #[n(1)] extra: T }
+#[derive(Encode, Decode, CborLen, Debug, PartialEq)] #[cbor(map)] struct UnitM<T> { #[n(0)] id: u8, #[n(1)] extra: T }
+#[derive(Encode, Decode, CborLen, Debug, PartialEq)] enum UnitE { #[n(0)] Ping(#[n(0)] ()), #[n(1)] Mark(#[n(0)] std::marker::PhantomData<u8>, #[n(1)] u8) }
+
 /// a nil-able type that is not SPELLED `Option<..>` (the macros decide some things from the spelling, others from the traits)
 type Maybe = Option<u8>;
 fn dec_maybe<'b, C>(d: &mut minicbor::Decoder<'b>, _: &mut C) -> Result<Maybe, minicbor::decode::Error> {
@@ -66,6 +71,12 @@ pub fn run(w: &[&str]) -> String {
                 Err(e) => format!("{} len={} dec=err:{} pos={}", hex(&b), b.len(), dclass(&e), d.position())
             }
         }
+        ("UnitA", [id]) => rt(&UnitA::<()> { id: id.parse().ok()?, extra: () }, |x| format!("{}", x.id)),
+        ("UnitM", [id]) => rt(&UnitM::<()> { id: id.parse().ok()?, extra: () }, |x| format!("{}", x.id)),
+        ("UnitPA", [id]) => rt(&UnitA::<std::marker::PhantomData<String>> { id: id.parse().ok()?, extra: std::marker::PhantomData }, |x| format!("{}", x.id)),
+        ("UnitPM", [id]) => rt(&UnitM::<std::marker::PhantomData<String>> { id: id.parse().ok()?, extra: std::marker::PhantomData }, |x| format!("{}", x.id)),
+        ("UnitE", [k]) if *k == "ping" => rt(&UnitE::Ping(()), |x| match x { UnitE::Ping(()) => "ping".into(), _ => "other".into() }),
+        ("UnitE", [n]) => rt(&UnitE::Mark(std::marker::PhantomData, n.parse().ok()?), |x| match x { UnitE::Mark(_, n) => format!("{}", n), _ => "other".into() }),
         ("BoxMid", [p, id]) => rt(&BoxMid { parent: Box::new(opt_u8(p)?), id: id.parse().ok()? }, |x| format!("{},{}", show_opt(&x.parent), x.id)),
         ("FltA", [id, a, b]) => rt(&FltA { id: id.parse().ok()?, a: f32::from_bits(u32::from_str_radix(a, 16).ok()?), b: f64::from_bits(u64::from_str_radix(b, 16).ok()?) },
             |x| format!("{},{:08x},{:016x}", x.id, x.a.to_bits(), x.b.to_bits())),
